@@ -182,6 +182,15 @@ theorem data_is_visible (data : List (Bytes × GoVal)) (env : Env) (hd : KeysDis
   have hd' : KeysDistinct (sortByKey data) := List.Pairwise.perm hd hperm.symm (fun h e => h e.symm)
   exact (envGo_visible (sortByKey data) [] env hd' h).1 k g (hperm.symm.subset hm)
 
+/-- … and in every block nested inside, however deep (as long as nothing in between binds the name again) -/
+theorem data_is_visible_in_nested_blocks (data : List (Bytes × GoVal)) (env : Env) (hd : KeysDistinct data)
+    (h : envFromMap data = .ok env) (k : Bytes) (g : GoVal) (hm : (k, g) ∈ data) (n : Nat) :
+    ∃ v, nativeToObject g = some v ∧ (Nat.repeat Env.push n env).get k = some v := by
+  obtain ⟨v, hv, hg⟩ := data_is_visible data env hd h k g hm
+  refine ⟨v, hv, ?_⟩
+  induction n with
+  | zero => exact hg
+  | succ n ih => rw [Nat.repeat, C04.nested_block_sees_outer]; exact ih
 
 /-! non-vacuity -/
 
